@@ -28,7 +28,7 @@ package syncer
 //@   arith int
 //@   properties C07 C01 C09 C12 C02
 //@   nopanic
-//@   replay syncer_parseAofCommand syncer_dbFilterBrackets syncer_dbFilterExecDropped syncer_zeroArgPublish syncer_resumeInFilteredDb
+//@   replay syncer_parseAofCommand syncer_dbFilterBrackets syncer_dbFilterExecDropped syncer_zeroArgPublish syncer_resumeInFilteredDb syncer_dbBlacklistCluster
 //@   ghost var pos mathint
 //@   ghost var unread mathint
 //@   ghost var cur mathint = startOffset
@@ -380,8 +380,10 @@ package syncer
 //@ func RedisOutput.rdbReplay
 //@   arith int
 //@   properties C04 C10
+//@   replay syncer_keylessSnapshotEntries
 //@   opaque SpecNsKey
-//@   assert at call Replay: bisync_bookkeeping_keys_are_never_replayed [C10]: !SpecNsKey(string(e.Key))
+//@   assert at call Replay: bisync_bookkeeping_keys_are_never_replayed [C10]: e != nil && (e.ObjectParser == nil || (rdb.SpecObjType(e.ObjectParser) != rdb.RdbObjectFunction && rdb.SpecObjType(e.ObjectParser) != rdb.RdbObjectAux)) ==> !SpecNsKey(string(e.Key))
+//@   assert at call rdbFilterCounterAdd: an_entry_that_names_no_key_is_not_withheld_by_a_key_or_database_rule [C10]: !(e != nil && e.ObjectParser != nil && (rdb.SpecObjType(e.ObjectParser) == rdb.RdbObjectFunction || rdb.SpecObjType(e.ObjectParser) == rdb.RdbObjectAux))
 //@   ghost var ended mathint = 0
 //@   ghost var ctxDone mathint = 0
 //@   set ctxDone = 1 after recv ctx.Done()
